@@ -18,6 +18,10 @@ CONSTEXPR_FLAGS_C = ["-fconstexpr-steps=2000000000", "-fconstexpr-depth=2048",
                      "-ftemplate-depth=2048"]
 
 
+SAN = ["-fsanitize=undefined,unsigned-integer-overflow,implicit-conversion", "-fno-sanitize=vptr,function,implicit-integer-sign-change",
+       "-fsanitize-minimal-runtime", "-fsanitize-recover=all", "-fno-sanitize-link-runtime"]
+
+
 def cflags(cfg):
     return CONSTEXPR_FLAGS_C if cfg.is_clang else CONSTEXPR_FLAGS_G
 
@@ -154,6 +158,8 @@ def lit128(v):
 
 RUN_TEMPLATE = r'''
 #include "sweep.hh"
+#include "c05_ubsan.hh"   // counts EVERY sanitizer event (the full runtime reports each location only once)
+static inline unsigned long ub_total() { return vf5_ub_arith + vf5_ub_fcast + vf5_ub_other; }
 namespace {
 template <bool B> using BoolC = std::integral_constant<bool, B>;
 
@@ -191,7 +197,7 @@ void run(int id, const vf::Interval *iv, int niv) {
         for (vf::i128 v = iv[k].lo; v <= iv[k].hi; ++v) {
             const T x = static_cast<T>(v);
             const auto q = au::meters(x);
-            const unsigned long ub0 = vf_ubsan_reports;
+            const unsigned long ub0 = ub_total();
             const bool lt = au::will_conversion_truncate(q, target);
             const bool lo = au::will_conversion_overflow(q, target);
             const bool ll = au::is_conversion_lossy(q, target);
@@ -206,7 +212,7 @@ void run(int id, const vf::Interval *iv, int niv) {
             else if (!e.band && lo != e.overflow()) { kind = lo ? "ovf-fp" : "ovf-fn"; slot = 1; }
             else if (ll != (e.trunc || e.overflow())) { kind = ll ? "lossy-fp" : "lossy-fn"; slot = 2; }
             else if (ll != (lt || lo)) { kind = "lossy-not-disjunction"; slot = 3; }
-            if (vf_ubsan_reports != ub0) { kind = "ubsan-in-checker"; slot = 6; ++st.n_ubsan; }
+            if (ub_total() != ub0) { kind = "ubsan-in-checker"; slot = 6; ++st.n_ubsan; }
             if (kind) {
                 ++st.n_viol;
                 if (shown[slot]++ < SHOW)
@@ -222,7 +228,7 @@ void run(int id, const vf::Interval *iv, int niv) {
                                lo, ll, e, "");
                 } else {
                     const T expect = e.neg ? static_cast<T>(-(vf::i128)e.q) : static_cast<T>(e.q);
-                    const unsigned long ub1 = vf_ubsan_reports;
+                    const unsigned long ub1 = ub_total();
                     const T r1 = q.coerce_in(target);
                     const T r2 = q.coerce_as(target).in(target);
                     bool bad = (r1 != expect) || (r2 != expect);
@@ -235,7 +241,7 @@ void run(int id, const vf::Interval *iv, int niv) {
                             emit_v(id, I::tname(), I::N, I::D, vf::int_str(x), "cleared-wrong-value",
                                    lt, lo, ll, e, vf::int_str(got));
                     }
-                    if (vf_ubsan_reports != ub1) {
+                    if (ub_total() != ub1) {
                         ++st.n_viol;
                         ++st.n_ubsan;
                         if (shown[7]++ < SHOW)
@@ -370,8 +376,7 @@ def explore(run, kinds):
     allstats += [dict(x, build="g++") for x in s]
     allviols += [dict(x, build="g++ -O2") for x in v]
     # clang + UBSan (signed overflow, unsigned wrap, value-changing implicit narrowing) observer
-    san = ["-fsanitize=undefined,unsigned-integer-overflow,implicit-conversion",
-           "-fsanitize-recover=all", "-fno-sanitize=implicit-integer-sign-change"]
+    san = list(SAN)
     s2, v2 = build_and_run(run, ccfg, "ubsan", insts, ivs, san, nsplit=core.NCPU * 2)
     allstats += [dict(x, build="clang-ubsan") for x in s2]
     allviols += [dict(x, build="clang++ -O2 ubsan") for x in v2]
@@ -441,8 +446,7 @@ def replay(path, prop):
     run.wd = os.path.join(core.BUILD, prop, "replay")
     os.makedirs(run.wd, exist_ok=True)
     kinds = C03_KINDS if prop == "C03" else C04_KINDS
-    san = ["-fsanitize=undefined,unsigned-integer-overflow,implicit-conversion",
-           "-fsanitize-recover=all", "-fno-sanitize=implicit-integer-sign-change"]
+    san = list(SAN)
     hits = []
     for cfg, fl, tag in ((core.GXX14, [], "rp"), (core.CLANG14, san, "rpsan")):
         s, v = build_and_run(run, cfg, tag, [(0, t, n, d)], {0: [(x, x)]}, fl, nsplit=1)
